@@ -15,6 +15,7 @@ import (
 	"strings"
 	"syscall"
 
+	"github.com/bufbuild/buf/private/buf/bufwkt/bufwktstore"
 	bufcli "github.com/bufbuild/buf/private/buf/cmd/buf"
 	"github.com/bufbuild/buf/private/bufpkg/bufcas"
 	"github.com/bufbuild/buf/private/bufpkg/bufconfig"
@@ -62,6 +63,8 @@ type caseData struct {
 	// unwrapped: the write path gets the real disk bucket itself, without the simulator's wrapper (and so
 	// sees whatever optional interfaces its objects implement); no scheduling points, no injected faults
 	unwrapped bool
+	// oldFiles: what the destination held before the write path ran (paths that populate it themselves)
+	oldFiles map[string]string
 }
 
 func init() {
@@ -76,6 +79,8 @@ type dest struct {
 	dir    string
 	// provider hands out instrumented disk buckets (for code that opens its own)
 	provider storageos.Provider
+	// healed: the later invocation of a healing path, after a failed one, reported success
+	healed bool
 }
 
 type writePath struct {
@@ -85,7 +90,13 @@ type writePath struct {
 	osOnly  bool // destination is always a real directory (reached through a storageos.Provider)
 	rawDst  bool // the code writes the destination file itself (faults come from the raw hooks below)
 	cli     bool // a CLI command run in-process on a generated workspace; it opens the destination itself (raw hooks)
-	run     func(ctx context.Context, c *caseData, d *dest) error
+	// heals: a cache that every invocation validates and repairs - after a failed invocation the path is
+	// invoked once more on the same destination (no fault left); if that succeeds the state must be complete
+	heals bool
+	// atomicFiles: destination objects the path puts atomically: after a FAILED run each of them is absent,
+	// holds what it held before (caseData.oldFiles) or the complete new content - never part of it
+	atomicFiles []string
+	run         func(ctx context.Context, c *caseData, d *dest) error
 }
 
 func srcBucket(c *caseData) storage.ReadBucket {
@@ -195,6 +206,19 @@ var writePaths = []*writePath{
 
 func init() {
 	writePaths = append(writePaths,
+		// the cache of well-known types every `buf ls-files` / LSP start goes through: populated by a plain
+		// copy, validated against the embedded files on every call
+		&writePath{name: "WKTStore.GetBucket", heals: true, run: func(ctx context.Context, c *caseData, d *dest) error {
+			store := bufwktstore.NewStore(slogext.NopLogger, d.bucket)
+			_, err := store.GetBucket(ctx)
+			if err != nil && ctx.Err() == nil {
+				// a later run, nothing failing any more
+				if _, err2 := store.GetBucket(ctx); err2 == nil {
+					d.healed = true
+				}
+			}
+			return err
+		}},
 		&writePath{name: "ModuleDataStore.Put(dir)", modules: true, run: func(ctx context.Context, c *caseData, d *dest) error {
 			return putModules(ctx, c, d, false)
 		}},
@@ -440,6 +464,8 @@ type runner struct {
 	env   *engine.Env
 	tp    *tape.Tape
 	n     int
+	// lastDest: the destination of the last execution
+	lastDest *dest
 }
 
 func (r *runner) newDest(c *caseData) *dest {
@@ -499,6 +525,7 @@ func (r *runner) exec(c *caseData, fifo bool, inject map[string]sched.Decision) 
 // execCancel is exec with the context cancelled when the given destination position is reached.
 func (r *runner) execCancel(c *caseData, fifo bool, inject map[string]sched.Decision, cancelAt string) (error, map[string]string, *positionPolicy) {
 	d := r.newDest(c)
+	r.lastDest = d
 	if c.preDest != nil {
 		c.preDest(d)
 	}
@@ -780,6 +807,21 @@ func Run(tp *tape.Tape, env *engine.Env) *engine.Outcome {
 		if fired > 0 && err == nil {
 			s.Violate("write-failure-reported", "C15|unreported|"+site,
 				"%s (dst=%s atomic=%v): injected %s at %s fired but the operation returned nil", c.wp.name, c.dstKind, c.atomic, in.kind, in.p.key)
+		}
+		if fired > 0 && err != nil {
+			for _, k := range c.wp.atomicFiles {
+				if v, ok := state[k]; ok && v != E[k] && v != c.oldFiles[k] {
+					s.Violate("atomic-put-all-or-nothing", "C15|atomic-failed-put-partial|"+site,
+						"%s (dst=%s) failed after %s at %s (%v) and left %d bytes in %s that are neither what it held before (%d bytes) nor the complete new content (%d bytes)", c.wp.name, c.dstKind, in.kind, in.p.key, err, len(v), k, len(c.oldFiles[k]), len(E[k]))
+				}
+			}
+		}
+		if c.wp.heals && err != nil && r.lastDest != nil && r.lastDest.healed {
+			if d := diffState(E, state); d != "" {
+				s.Violate("success-implies-complete", "C15|success-incomplete|"+c.wp.name+"|later-run|"+in.kind,
+					"%s (dst=%s): after an invocation that failed with %s at %s, the NEXT invocation reported success, but the cache differs from what it is supposed to hold: %s", c.wp.name, c.dstKind, in.kind, in.p.key, d)
+			}
+			s.Probe("cache-healed-by-later-run")
 		}
 		if err == nil {
 			if d := diffState(E, state); d != "" {
